@@ -676,4 +676,17 @@ def specClean (hit : Pat → Str → Bool) (cfg : Cfg) (tb : Tables) (call : Cal
     | .ok outs => if outs.isEmpty then pure none else pure (some outs)
     | .error e => .error e
 
+/-! ### histories of calls on ONE cleaner
+
+`no_obfuscate`, `no_redact`, the allow list and `width` are arguments of the CALL (`Call`, `allow`): the stages a call
+runs are `stagesOf cfg call`, a function of the configuration and of that call's own exemptions.  What one cleaner
+carries from call to call is only the obfuscators' databases, i.e. the substitute tables (property C09; a parameter
+here).  A history is therefore the list of its calls, each cleaned by itself. -/
+
+abbrev CallIn := Call × Option Allow × List (Str × List Str)
+
+def cleanHistory (hit : Pat → Str → Bool) (cfg : Cfg) (tb : Tables) (calls : List CallIn) :
+    List (Except Err (List PStr)) :=
+  calls.map (fun c => cleanContent hit cfg tb c.1 c.2.1 c.2.2)
+
 end IV.CleanLine
